@@ -384,6 +384,8 @@ def g_jv(v):
         return "(JArr %s)" % g_list([g_jv(x) for x in v])
     if isinstance(v, bool):
         return "(JBool %s)" % g_bool(v)
+    if isinstance(v, int):
+        return "(JInt %s)" % core.g_z(v)
     if isinstance(v, str):
         return "(JStr %s)" % g_codepoints(v)
     if isinstance(v, dict):
@@ -444,6 +446,10 @@ def oracle_species(it):
     if "error" in o:
         return False, name + " [%s]" % o["error"]
     for label, v, w in o["variants"]:
+        if w is None:
+            if label == "as_written" or label.startswith("alias:"):
+                return False, name + " [variant %s was rejected]" % label
+            continue
         if "raised" in w:
             return False, name + " [variant %s was rejected: %s]" % (label, w["raised"])
         if label == "as_written" or label.startswith("alias:"):
@@ -669,6 +675,92 @@ def network_items(cases):
     return items
 
 
+def make_grid_case(rng):
+    w, h, d = rng.randint(1, 3), rng.randint(1, 3), rng.randint(1, 2)
+    vol = {"v": rng.choice([1.0, 2.5, 0.125, 8.0, 3e-3, 1234.5]), "sys": list(sysgen.rand_sys(rng)), "dim": [3, 0, 0]}
+    return {"w": w, "h": h, "d": d, "env": [rng.randrange(3) for _ in range(w * h * d)], "vol": vol, "per": [rng.random() < 0.4 for _ in range(3)],
+            "units": list(sysgen.rand_sys(rng)), "parent": list(sysgen.rand_sys(rng)), "alias_seed": rng.randrange(2 ** 30)}
+
+
+def _variants_out(variants, rebuild):
+    out = []
+    for label, v in variants:
+        try:
+            out.append([label, v, json.loads(json.dumps(rebuild(copy.deepcopy(v))))])
+        except Exception:
+            out.append([label, v, None])          # rejected: the model must reject it too
+    return out
+
+
+def observe_grid(c):
+    import strengths
+    import strengths.rdgridspace as gs
+    U = strengths.units
+    try:
+        g = strengths.RDGridSpace(w=c["w"], h=c["h"], d=c["d"], cell_env=list(c["env"]), cell_vol=_qtext(c["vol"]),
+                                  boundary_conditions={a: sysgen.BC[p] for a, p in zip("xyz", c["per"])}, units_system=sysgen.py_sys(U, c["units"]))
+        written = json.loads(json.dumps(gs.rdgridspace_to_dict(g)))
+    except Exception as e:
+        return {"error": "%s: %s" % (type(e).__name__, str(e)[:100])}
+    parent = sysgen.py_sys(U, c["parent"])
+    rng = random.Random(c["alias_seed"])
+    variants = [["as_written", copy.deepcopy(written)]]
+    for syn in ALIASES.get("grid", []):
+        present = [k for k in syn if k in written]
+        if len(present) == 1 and len(syn) > 1 and rng.random() < 0.5:
+            v = copy.deepcopy(written)
+            v[rng.choice([a for a in syn if a != present[0]])] = v.pop(present[0])
+            variants.append(["alias:" + present[0], v])
+    for key in ("w", "h", "d", "cell_env", "cell_volume", "boundary_conditions", "units", "type"):
+        if rng.random() < 0.3:
+            v = copy.deepcopy(written)
+            del v[key]
+            variants.append(["omitted:" + key, v])
+    v = copy.deepcopy(written)
+    r = rng.random()
+    if r < 0.25:
+        v["cell_env"] = 2                                     # one environment for every cell
+        variants.append(["scalar_env", v])
+    elif r < 0.5:
+        v["cell_env"] = v["cell_env"] + [0]                   # one entry too many: rejected
+        variants.append(["long_env", v])
+    elif r < 0.75:
+        v["boundary_conditions"] = {"z": "periodical", "x": "reflecting"}
+        variants.append(["partial_bc", v])
+    else:
+        v["w"] = 0
+        variants.append(["zero_width", v])
+    return {"written": written, "variants": _variants_out(variants, lambda d: gs.rdgridspace_to_dict(gs.rdgridspace_from_dict(d, parent)))}
+
+
+def emit_grid(c, o):
+    q = c["vol"]
+    gg = "(Build_grid_obj str %s %s %s %s (%s, (%s, %s)) (%s, %s, %s) %s)" % (
+        core.g_z(c["w"]), core.g_z(c["h"]), core.g_z(c["d"]), g_list([core.g_z(e) for e in c["env"]]),
+        g_codepoints(repr(float(q["v"]))), si.g_usys(q["sys"]), si.g_dim(q["dim"]),
+        g_bool(c["per"][0]), g_bool(c["per"][1]), g_bool(c["per"][2]), si.g_usys(c["units"]))
+    gc = "((%s : gr_obj), %s)" % (gg, si.g_usys(c["parent"]))
+    if "error" in o:
+        return gc, "(JBool false, [])"
+    go = "(%s, %s)" % (g_jv(o["written"]), g_list(["(%s, %s)" % (g_jv(v), g_jv(w)) for _, v, w in o["variants"]]))
+    return gc, go
+
+
+def grid_items(cases):
+    obs = child.map_children("c12", "observe_grid", cases, timeout=60)
+    items = []
+    for c, o in zip(cases, obs):
+        if "timeout" in o or "crash" in o:
+            o = {"error": "timeout or crash"}
+        try:
+            gc, go = emit_grid(c, o)
+        except ValueError as e:
+            o = {"error": str(e)}
+            gc, go = emit_grid(c, o)
+        items.append({"case": c, "obs": o, "gcase": gc, "gobs": go, "nontrivial": "error" not in o})
+    return items
+
+
 def check(run):
     rng = random.Random(run.seed)
     sysgen.POOLS["space"] = ["cm", "mm", "dmm", "cmm", "µm", "nm", "dm"]
@@ -710,12 +802,20 @@ def check(run):
         for label, _, _ in it["obs"].get("variants", []):
             run.count("network_variant:" + label.split(":")[0])
     core.decide(run, nitems, IMPORTS, "accept_C12_network", oracle_species, shard=15)
+    gitems = grid_items([make_grid_case(rng) for _ in range(ns)])
+    for it in gitems:
+        for label, _, w in it["obs"].get("variants", []):
+            run.count("grid_variant:" + label.split(":")[0] + (":rejected" if w is None else ""))
+    core.decide(run, gitems, IMPORTS, "accept_C12_grid", oracle_species, shard=40)
 
 
 def replay(run, payload):
     sysgen.POOLS["space"] = ["cm", "mm", "dmm", "cmm", "µm", "nm", "dm"]
     if payload.get("correspondence") == "accept_C12_species":
         core.decide(run, species_items([payload["case"]]), IMPORTS, "accept_C12_species", oracle_species)
+        return
+    if payload.get("correspondence") == "accept_C12_grid":
+        core.decide(run, grid_items([payload["case"]]), IMPORTS, "accept_C12_grid", oracle_species)
         return
     if payload.get("correspondence") == "accept_C12_network":
         core.decide(run, network_items([payload["case"]]), IMPORTS, "accept_C12_network", oracle_species)
